@@ -142,6 +142,9 @@ def _verify_case(c, fnode, case, label, res, lemma_body=None):
             else:
                 raise StaleContract(f"{c.key}: contract declares parameter `{name}` that the function does not have")
     st.old_env = dict(st.env)
+    from .core import register_entry_params
+
+    register_entry_params(st.env)
     sc0 = ex.scope(st)
     for lab, text in c.requires.items():
         st.assume(spec.sv_bool(text, sc0))
@@ -262,6 +265,9 @@ def verify_lemma(name) -> FunctionResult:
             st.env[pname] = v
             assume_type_facts(st, v)
         st.old_env = dict(st.env)
+        from .core import register_entry_params
+
+        register_entry_params(st.env)
         sc0 = ex.scope(st)
         for lab, text in c.requires.items():
             st.assume(spec.sv_bool(text, sc0))
